@@ -290,8 +290,9 @@ class Verdict:
             "spec_drift": self.drift,
             "observations": self.observations[:40],
         }
-        EVIDENCE.mkdir(exist_ok=True)
-        (EVIDENCE / f"{self.pid}.json").write_text(json.dumps(ev, indent=1, default=str) + "\n")
+        edir = EVIDENCE / "extra" if self.pid.startswith("X") else EVIDENCE       # X..: checks beyond the listed properties
+        edir.mkdir(exist_ok=True, parents=True)
+        (edir / f"{self.pid}.json").write_text(json.dumps(ev, indent=1, default=str) + "\n")
         return 1 if self.violations else 0
 
 
